@@ -22,7 +22,7 @@ func init() {
 		ID: "C11", Level: "exploration", Primary: "states", EvalCount: "stops",
 		Rule: "liveness restated as bounded progress: Stop must return within B=10s (an order of magnitude above what a correct implementation needs) WITHOUT any client action, and Run must then return nil. " +
 			"One evaluation = a fresh server brought into a connection state (none; 1/8/64 idle; half a frame sent; TLS listener with no / partial ClientHello; StartTLS-upgraded idle; StartTLS answered but handshake never started; busy pipelining; clients not reading " +
-			"large responses so that handlers block in Write (60KB frames that block in the write, 300-byte frames from two handlers that block in the flush, a server configured with a 10-minute write timeout, and a client that keeps reading an endless response at a steady moderate pace) - alone and combined ON THE SAME CONNECTION with an Unbind, a half-close, a pending StartTLS handshake or half a frame; all of them together) x optional concurrent second Stop, then Stop is called; plus Stop racing Run's start-up with no client at all (Run parked at its own log statements through the user-supplied logger, and random microsecond offsets), a connection with a history of 150 recovered handler panics, idle connections left over by a PRNG-chosen history of 4..20 connections coming and going, 33/40/100 idle connections, and clients that keep connecting (and then sit idle) while Stop runs on a server with a 10-minute read timeout. If B expires the harness dumps goroutines and lets the clients go: a Stop goroutine parked (in any wait state) " +
+			"large responses so that handlers block in Write (60KB frames that block in the write, 300-byte frames from two handlers that block in the flush, a server configured with a 10-minute write timeout, a client that keeps reading an endless response at a steady moderate pace, and an ldaps session whose client does not read - own bound 25s, crypto/tls spends 5s on the close_notify) - alone and combined ON THE SAME CONNECTION with an Unbind, a half-close, a pending StartTLS handshake or half a frame; all of them together) x optional concurrent second Stop, then Stop is called; plus Stop racing Run's start-up with no client at all (Run parked at its own log statements through the user-supplied logger, and random microsecond offsets), a connection with a history of 150 recovered handler panics, idle connections left over by a PRNG-chosen history of 4..20 connections coming and going, 33/40/100 idle connections, and clients that keep connecting (and then sit idle) while Stop runs on a server with a 10-minute read timeout. If B expires the harness dumps goroutines and lets the clients go: a Stop goroutine parked (in any wait state) " +
 			"with a gldap connection goroutine parked in network I/O, released only when the clients close, is a violation; so is a Stop that is parked while every handler still running sits inside gldap's own ResponseWriter.Write; and so is a Stop call whose goroutine is found parked at the same place in a second dump taken 30s after every client closed its socket while no handler is running (e.g. one of two concurrent Stop calls that is never woken); anything else is inconclusive. " +
 			"distinct_nontrivial = distinct (state, #connections, second-Stop) triples with at least one connection open at Stop time",
 		Assume: []string{"handlers that block in application code (not in gldap's Write) are outside the statement: the workload's handlers only ever block inside ResponseWriter.Write"},
@@ -148,7 +148,7 @@ func c11Run(c *Ctx) {
 	for i := 0; i < c.N(400, 20000); i++ {
 		c11Startup(c, pki, "", i%2 == 0, i, c.Rng.Sub(fmt.Sprintf("su%d", i)))
 	}
-	states := []string{"none", "idle", "half-frame", "tls-no-hello", "tls-partial-hello", "starttls-idle", "starttls-pending", "busy-pipelining", "not-reading",
+	states := []string{"none", "idle", "half-frame", "tls-no-hello", "tls-partial-hello", "tls-not-reading", "starttls-idle", "starttls-pending", "busy-pipelining", "not-reading",
 		"not-reading+unbind", "not-reading+half-close", "not-reading+starttls-pending", "not-reading+half-frame", "not-reading+long-write-timeout", "not-reading+small-frames-two-handlers", "steady-reader", "after-panic-storm", "mixed"}
 	counts := []int{1, 8}
 	reps := 1
@@ -294,6 +294,16 @@ func c11One(c *Ctx, pki *PKI, st c11State) {
 		case "half-frame":
 			f := search(1, "x")
 			cn.Write(f[:len(f)/2])
+		case "tls-not-reading":
+			// an ldaps session whose client asked for a large response and does not read it: when Stop's write grace is
+			// over the handler's write fails, and closing such a session fails as well (the close_notify cannot be sent)
+			tc := tls.Client(cn, pki.ClientPlain)
+			cn.SetDeadline(time.Now().Add(patience))
+			if err := tc.Handshake(); err != nil {
+				c.Inconclusive("tls handshake: " + err.Error())
+			}
+			cn.SetDeadline(time.Time{})
+			tc.Write(search(1, "big"))
 		case "tls-no-hello":
 		case "tls-partial-hello":
 			cn.Write([]byte{0x16, 0x03, 0x01, 0x02, 0x00, 0x01, 0x00})
@@ -476,7 +486,13 @@ func c11One(c *Ctx, pki *PKI, st c11State) {
 		nStops = 2
 	}
 	returned := 0
-	timeout := time.After(c11Bound)
+	bound := c11Bound
+	if st.Name == "tls-not-reading" {
+		// crypto/tls itself spends up to 5s trying to send a close_notify to a peer that does not read (on top of gldap's
+		// 1s write grace): this state's own bound is 25s
+		bound = 25 * time.Second
+	}
+	timeout := time.After(bound)
 	var late bool
 wait:
 	for returned < nStops {
@@ -546,7 +562,7 @@ wait:
 	}
 	released = returned == nStops
 	cwg.Wait()
-	det := map[string]any{"state": sig, "bound_s": c11Bound.Seconds(), "stop_goroutine_parked": stopParked, "connection_goroutine_parked_in_io": connParked,
+	det := map[string]any{"state": sig, "bound_s": bound.Seconds(), "stop_goroutine_parked": stopParked, "connection_goroutine_parked_in_io": connParked,
 		"released_after_clients_closed": released, "release_latency_ms": time.Since(tRelease).Milliseconds(), "goroutines": trimDump(dump, 3)}
 	connGoroutine := false
 	for _, g := range dump {
@@ -557,25 +573,25 @@ wait:
 	det["harness_handlers_running_at_expiry"] = inHandlers.Load()
 	if stopParked && connParked && released {
 		c.Violate("Stop blocks while a client holds a connection: "+st.Name,
-			fmt.Sprintf("state %s: Stop had not returned after %s without any client action; it returned %d ms after the clients closed their sockets", sig, c11Bound, time.Since(tRelease).Milliseconds()), det)
+			fmt.Sprintf("state %s: Stop had not returned after %s without any client action; it returned %d ms after the clients closed their sockets", sig, bound, time.Since(tRelease).Milliseconds()), det)
 	} else if stopParked && connGoroutine && inHandlers.Load() == 0 {
 		// no application handler is running, so nothing outside gldap can be what Stop is waiting for
 		c.Violate("Stop blocks although no handler is running: "+st.Name,
-			fmt.Sprintf("state %s: Stop had not returned after %s; its goroutine is parked, a gldap connection goroutine is still parked and no handler is running (released after the clients closed: %v)", sig, c11Bound, released), det)
+			fmt.Sprintf("state %s: Stop had not returned after %s; its goroutine is parked, a gldap connection goroutine is still parked and no handler is running (released after the clients closed: %v)", sig, bound, released), det)
 	} else if inWrite := countGoroutines(dump, "(*ResponseWriter).Write"); stopParked && inHandlers.Load() > 0 && int64(inWrite) >= inHandlers.Load() {
 		// every handler that is still running sits inside gldap's own Write (the workload's handlers block nowhere
 		// else): whatever Write is parked on - the network, or gldap's writer lock - Stop has to get it out of there
 		det["handlers_parked_inside_ResponseWriter_Write"] = inWrite
 		c.Violate("Stop blocks while handlers are parked inside ResponseWriter.Write: "+st.Name,
-			fmt.Sprintf("state %s: Stop had not returned after %s; %d handlers are still running and all of them are parked inside gldap's ResponseWriter.Write (released after the clients closed: %v)", sig, c11Bound, inHandlers.Load(), released), det)
+			fmt.Sprintf("state %s: Stop had not returned after %s; %d handlers are still running and all of them are parked inside gldap's ResponseWriter.Write (released after the clients closed: %v)", sig, bound, inHandlers.Load(), released), det)
 	} else if still := parkedIDs(gldapGoroutines(), "(*Server).Stop", parkedIDs(dump, "(*Server).Stop", nil)); !released && len(still) > 0 && inHandlers.Load() == 0 {
 		// second look, patience after every client closed its socket: no handler is running and a Stop goroutine is
 		// parked where it was parked before - it waits for something that only gldap itself can provide
 		det["stop_goroutines_parked_in_both_dumps"] = len(still)
 		c.Violate("Stop does not return although every client has gone and no handler is running: "+st.Name,
-			fmt.Sprintf("state %s: %d of %d Stop calls had not returned %s after the clients closed their sockets (and %s before that without client action)", sig, nStops-returned, nStops, patience, c11Bound), det)
+			fmt.Sprintf("state %s: %d of %d Stop calls had not returned %s after the clients closed their sockets (and %s before that without client action)", sig, nStops-returned, nStops, patience, bound), det)
 	} else {
-		c.Inconclusive(fmt.Sprintf("state %s: Stop exceeded %s but the goroutine dump does not show the client-held shape (stopParked=%v connParked=%v released=%v)", sig, c11Bound, stopParked, connParked, released))
+		c.Inconclusive(fmt.Sprintf("state %s: Stop exceeded %s but the goroutine dump does not show the client-held shape (stopParked=%v connParked=%v released=%v)", sig, bound, stopParked, connParked, released))
 	}
 }
 
